@@ -138,6 +138,9 @@ def _check_candidates(ctx, fi, lst, expect_guard, expect_elem):
         ok = ok and len(inner) == 1 and isinstance(inner[0], Guard) and len(inner[0].items) == 1 and isinstance(inner[0].items[0], Elem)
         if ok:
             g = inner[0].cond
+            # `if not pred(tok): continue` leaves the element under not(not(pred)): the same condition
+            while isinstance(g, CondV) and g.kind == "not" and isinstance(g.args[0], CondV) and g.args[0].kind == "not":
+                g = g.args[0].args[0]
             e = inner[0].items[0].value
             ok = expect_guard(g) and expect_elem(e)
     ctx.instance("TABLE")
